@@ -2,7 +2,7 @@
 From Model Require Import Engine.
 From Spec Require Import Sem FindSpec.
 From Proofs Require Import RefineBase Refine Attempt FindCorrect Total.
-From Proofs Require TotalRec TotalFind.
+From Proofs Require TotalRec TotalFind NamedErase TotalPred.
 
 (* The specification is total on call-free patterns: nullable loop bodies, nested unbounded
    loops and zero-width anchors under `at least 0` included (an iteration that consumed nothing is
@@ -23,12 +23,12 @@ Print Assumptions C10_find_terminates.
 (* With recursion: a call is GUARDED when, inside the subroutine's body, it sits after something all of
    whose outcomes consume input ([consumes]); a recursive call then starts strictly further in the
    text than the call it belongs to.  On every pattern whose calls go to defined subroutines with
-   guarded bodies, the specification is total - at every state of every text.  With
+   guarded bodies (and whose predicates, if any, return a value on every match text), the specification is total - at every state of every text.  With
    C09_find_returns_when_defined this gives termination of the VM for guarded recursion. *)
 Theorem C10_spec_total_guarded_recursion :
   forall text start defs,
-  (forall t b p, defs t = Some (b, p) -> p = PNil /\ TotalRec.guarded text start defs b /\ TotalRec.callok defs b) ->
-  forall r, TotalRec.callok defs r -> forall s, fst s <= length text -> exists l, outs text start defs r s l.
+  (forall t b p, defs t = Some (b, p) -> TotalRec.pred_returns text start p /\ TotalRec.guarded text start defs b /\ TotalRec.callok text start defs b) ->
+  forall r, TotalRec.callok text start defs r -> forall s, fst s <= length text -> exists l, outs text start defs r s l.
 Proof. exact TotalRec.outs_total_guarded_lemma. Qed.
 Print Assumptions C10_spec_total_guarded_recursion.
 
@@ -39,14 +39,41 @@ Print Assumptions C10_spec_total_guarded_recursion.
 Theorem C10_find_decided_guarded_recursion :
   forall r text, loop_ok r ->
   (forall start t b p, defs_of r t = Some (b, p) ->
-     p = PNil /\ TotalRec.guarded text start (defs_of r) b /\ TotalRec.callok (defs_of r) b) ->
-  TotalRec.callok (defs_of r) r ->
+     TotalRec.pred_returns text start p /\ TotalRec.guarded text start (defs_of r) b /\ TotalRec.callok text start (defs_of r) b) ->
+  (forall start, TotalRec.callok text start (defs_of r) r) ->
   exists S, sscan r text 0 S /\
   exists F, forall fuel, F <= fuel ->
     exists M, find_matches fuel (compile r 0) text true 0 0 0 = SOk M /\
               map span_of M = S /\ Forall (faithful text) M /\ map mnum M = seq 1 (length M).
 Proof. exact TotalFind.find_decided_guarded_lemma. Qed.
 Print Assumptions C10_find_decided_guarded_recursion.
+
+(* Named loops terminate like unnamed ones: for a pattern without back-references whose name-erased form is call-free,
+   the VM's `find all` returns on every text (C01_named_loops_same_spans carries the verdict over). *)
+Theorem C10_find_terminates_named_loops :
+  forall r text, NamedErase.noref r -> NamedErase.lists_plain r ->
+  loop_ok (NamedErase.unname r) -> simple (NamedErase.unname r) ->
+  exists F, forall fuel, F <= fuel -> exists M, find_matches fuel (compile r 0) text true 0 0 0 = SOk M.
+Proof.
+  intros r text Hn Hp Hok Hs. destruct (find_terminates_lemma (NamedErase.unname r) text Hok Hs) as (F & HF).
+  exists F. intros fuel Hf. destruct (HF fuel Hf) as (M' & HM').
+  pose proof (NamedErase.named_loops_same_spans_lemma r text fuel true 0 0 0 Hn Hp) as H. rewrite HM' in H.
+  destruct (find_matches fuel (compile r 0) text true 0 0 0) as [M| |]; cbn in H; try contradiction. exists M. reflexivity.
+Qed.
+Print Assumptions C10_find_terminates_named_loops.
+
+(* Predicates: the totality theorems above ask for predicate-free subroutines.  With predicates the search still
+   terminates whenever every predicate's process code returns a value (true or false) on every match text - process
+   loops are outside this property: the specification is total on such call-free patterns, and the VM's `find all`
+   returns the specification's scan. *)
+Theorem C10_find_terminates_with_predicates :
+  forall r text, loop_ok r -> (forall start, TotalPred.simple_p text start r) ->
+  exists S, sscan r text 0 S /\
+  exists F, forall fuel, F <= fuel ->
+    exists M, find_matches fuel (compile r 0) text true 0 0 0 = SOk M /\
+              map span_of M = S /\ Forall (faithful text) M /\ map mnum M = seq 1 (length M).
+Proof. exact TotalPred.find_terminates_pred_lemma. Qed.
+Print Assumptions C10_find_terminates_with_predicates.
 
 (* non-vacuity: at least 0 (maybe 'a') — a nullable body under an unbounded loop — on "aa" *)
 Definition ex10 : rx :=
@@ -64,16 +91,23 @@ Definition ex10_body : rx :=
 Definition ex10_defs (t : nat) : option (rx * pstmts) := match t with O => Some (ex10_body, PNil) | _ => None end.
 Definition ex10_rec : rx := XSeq (XCall [115]%N 0) (XSeq (XAtom (IMatchLit false false [100]%N)) XEps).
 
+Lemma ex10_body_callok text start defs : defs O = Some (ex10_body, PNil) -> TotalRec.callok text start defs ex10_body.
+Proof. intros H. cbn [TotalRec.callok ex10_body]. split; [exact I|]. split; [split; [reflexivity|eexists _, _; exact H]|]. split; exact I. Qed.
+
+Lemma ex10_body_guarded text start defs : defs O = Some (ex10_body, PNil) -> TotalRec.guarded text start defs ex10_body.
+Proof.
+  intros H. cbn [TotalRec.guarded ex10_body]. split; [exact I|]. right. split; [apply TotalRec.literal_consumes|].
+  cbn [TotalRec.callok]. split; [split; [reflexivity|eexists _, _; exact H]|]. split; exact I.
+Qed.
+
 Example C10_recursion_witness : forall text start,
-  (forall t b p, ex10_defs t = Some (b, p) -> p = PNil /\ TotalRec.guarded text start ex10_defs b /\ TotalRec.callok ex10_defs b) /\
-  TotalRec.callok ex10_defs ex10_rec.
+  (forall t b p, ex10_defs t = Some (b, p) -> TotalRec.pred_returns text start p /\ TotalRec.guarded text start ex10_defs b /\ TotalRec.callok text start ex10_defs b) /\
+  TotalRec.callok text start ex10_defs ex10_rec.
 Proof.
   intros text start. split.
-  - intros [|t] b p H; [|discriminate]. inversion H; subst. split; [reflexivity|]. split.
-    + cbn [TotalRec.guarded ex10_body]. split; [exact I|]. right. split; [apply TotalRec.literal_consumes|].
-      cbn. repeat split; auto. eexists; reflexivity.
-    + cbn. repeat split; auto. eexists; reflexivity.
-  - cbn. repeat split; auto. eexists; reflexivity.
+  - intros [|t] b p H; [|discriminate]. inversion H; subst. split; [apply TotalRec.pred_returns_nil|].
+    split; [apply ex10_body_guarded; reflexivity|apply ex10_body_callok; reflexivity].
+  - cbn [TotalRec.callok ex10_rec]. split; [eexists _, _; reflexivity|]. split; exact I.
 Qed.
 
 (* non-vacuity of the engine-level theorem: the whole pattern {'a' maybe s 'b'} = s 'd', subroutine
@@ -83,13 +117,20 @@ Definition ex10_whole : rx := XSeq (XSub [115]%N ex10_body PNil) (XSeq (XAtom (I
 Example C10_engine_witness : forall text,
   loop_ok ex10_whole /\
   (forall start t b p, defs_of ex10_whole t = Some (b, p) ->
-     p = PNil /\ TotalRec.guarded text start (defs_of ex10_whole) b /\ TotalRec.callok (defs_of ex10_whole) b) /\
-  TotalRec.callok (defs_of ex10_whole) ex10_whole.
+     TotalRec.pred_returns text start p /\ TotalRec.guarded text start (defs_of ex10_whole) b /\ TotalRec.callok text start (defs_of ex10_whole) b) /\
+  (forall start, TotalRec.callok text start (defs_of ex10_whole) ex10_whole).
 Proof.
   intros text. split; [cbn; repeat split; auto|]. split.
-  - intros start [|t] b p H; [|discriminate]. inversion H; subst. split; [reflexivity|]. split.
-    + cbn [TotalRec.guarded ex10_body]. split; [exact I|]. right. split; [apply TotalRec.literal_consumes|].
-      cbn. repeat split; auto. eexists; reflexivity.
-    + cbn. repeat split; auto. eexists; reflexivity.
-  - cbn. repeat split; auto. eexists; reflexivity.
+  - intros start [|t] b p H; [|discriminate]. inversion H; subst. split; [apply TotalRec.pred_returns_nil|].
+    split; [apply ex10_body_guarded; reflexivity|apply ex10_body_callok; reflexivity].
+  - intros start. cbn [TotalRec.callok ex10_whole]. split; [split; [apply TotalRec.pred_returns_nil|apply ex10_body_callok; reflexivity]|]. split; exact I.
+Qed.
+
+(* non-vacuity of the predicate theorem: {at least 1 'a'} = p with the predicate  return matchLength > 1  returns on every text *)
+Definition ex10_pred : pstmts := PCons (PSReturn (PEBin OGreater (PEVar matchLength_name) (PENum 1))) PNil.
+Definition ex10_p : rx := XSeq (XSub [112]%N (XLoop 0 1 (-1) false [] (XAtom (IMatchLit false false [97]%N))) ex10_pred) XEps.
+Example C10_predicate_witness : forall text start, loop_ok ex10_p /\ TotalPred.simple_p text start ex10_p.
+Proof.
+  intros text start. split; [cbn; intuition discriminate|]. cbn [TotalPred.simple_p ex10_p]. split; [|exact I]. split; [|split; [reflexivity|exact I]].
+  intros q. unfold pred_holds, ex10_pred. cbn. destruct (Z.of_nat (length (sub text start (fst q))) >? 1)%Z; discriminate.
 Qed.
